@@ -63,6 +63,8 @@ def run_shard(pid: str, tier: str, seed: int, shard: int, nshards: int, out: str
 
     ctx = core.Ctx(pid, tier, seed, shard, nshards)
     mon = load_monitor(pid)
+    if os.environ.get("VQ_ERRSTATE"):                     # development aid (DESIGN section 7 rule 19): find out where the unchanged tree divides by zero
+        np.seterr(divide=os.environ["VQ_ERRSTATE"], invalid=os.environ["VQ_ERRSTATE"])
     status = "ok"
     err = None
     try:
